@@ -58,6 +58,10 @@ func checkTree(k *run.K, t model.Tree) {
 	if k.Lib("nopanic", func() { back, err = geom.UnmarshalWKT(text, geom.NoValidate{}) }) {
 		return
 	}
+	if err == nil {
+		hp := shared.HiddenPayload(back)
+		k.Check("roundtrip", hp == "", "UnmarshalWKT: %s", hp)
+	}
 	if k.Check("roundtrip", err == nil, "UnmarshalWKT(AsText) error: %v", err) {
 		bt, iss := model.FromGeom(back)
 		k.Check("roundtrip", model.Equal(bt, t) && len(iss) == 0, "parse(AsText(g)) differs: %s %v", model.Diff(bt, t), iss)
